@@ -17,7 +17,8 @@ CLAIMED = {
          "elements (its own fragment loop), multi-tag reads, out-of-range and unknown tags, twelve auto-allocated tags, Close; the "
          "TLC-emitted operation lists' observed (value, status) sequences are validated by TLC (ClientTrace) against the tag "
          "model; spec-encoded raw frames (Register, bare and Unconnected-Send-wrapped reads / writes) are written to the TCP "
-         "socket and the replies validated by TLC (ServerTrace) with the spec's decoder.",
+         "socket and the replies validated by TLC (ServerTrace) with the spec's decoder.  Short strings with high octets (SSTRING) through pylogix; "
+         "the cpppo client's List Identity / Services / Interfaces requests against the live simulator, judged by ServerOps!SimIdentity / SimServices.",
          "5/C14", "conformance-dominated: the spec is the reference encoder / decoder and the array model; pylogix status strings mapped by a fixed table; "
          "raw connected (Forward Open / SendUnitData) frames are exercised through pylogix only",
          "independent client (pylogix) sessions and spec-encoded raw frames against the live simulator, validated by TLC trace specs"),
@@ -29,7 +30,7 @@ CLAIMED = {
          "accepts a run iff results are one per operation and explained by the tag model and no bundle mixed route paths; "
          "parse_operations / attribute_operations / format_path are checked against OpText.  Operations include explicit byte-offset "
          "fragments, Get/Set Attribute Single, bundles whose replies exceed one receive buffer, and writes spelled without a cast (the parsing "
-         "entry point's default integer type: PlainText).",
+         "entry point's default integer type: PlainText) and other spellings of a numeric address (AltTexts).",
          "5/C12", "operations refused with a CIP status = range / type errors on existing tags; string writes not in fragment mode",
          "TLA+ client contract + TLC-emitted operation lists; real connector vs live simulator over the settings matrix, validated by TLC trace spec"),
  "C13": ("fault_enumeration",
@@ -120,7 +121,7 @@ CLAIMED = {
          "every sub-grammar (EPATH segment kinds and widths, status, typed data of 13 types, Logix/attribute requests -- Get/Set Attribute Single, Get Attribute List, Get Attributes All -- and all "
          "replies the tag model allows, bundles, Unconnected Send, frames of each command) and checks the layout laws (even EPATH, "
          "size = words, unique decoding, bundle offset law); every vector is replayed into cpppo: produce(fields) = spec octets, "
-         "parse(octets) consumes all and recovers every field, produce(parse(octets)) = octets.",
+         "parse(octets) consumes all and recovers every field, produce(parse(octets)) = octets (one frame has the top bit of its length field set; socket addresses also given as numbers).",
          "5/C01", "floats as bit patterns; STRUCT typed data as opaque octets",
          "TLA+ reference encoder (CIPWire) evaluated by TLC over boundary domains; vectors replayed into cpppo producers and parsers"),
  "C02": ("model_checking",
